@@ -772,6 +772,8 @@ unsafe fn patch_statx(st: &mut SysState, id: usize, buf: *mut libc::statx) {
     if id != usize::MAX && st.paths[id].fake_blockdev {
         let b = &mut *buf;
         b.stx_mode = (b.stx_mode & !(libc::S_IFMT as u16)) | (libc::S_IFBLK as u16);
+        // like a real block device: stat reports no size (the size is what seeking to the end says)
+        b.stx_size = 0;
     }
 }
 
@@ -814,6 +816,7 @@ pub unsafe extern "C" fn fstat64(fd: c_int, buf: *mut libc::stat64) -> c_int {
             if r == 0 && st.paths[id].fake_blockdev {
                 let b = &mut *buf;
                 b.st_mode = (b.st_mode & !libc::S_IFMT) | libc::S_IFBLK;
+                b.st_size = 0;
             }
             push_event(st, SysEvent { op: Op::Stat, path: id, fd, a: 0, b: 0, ret: r as i64, errno: 0, data: None });
         }
